@@ -16,6 +16,13 @@ repair (obs-fold, bare CR / LF inside a field value); (l) chunked requests whose
 chunk-size lines carry long valid chunk extensions, sized relative to the limit
 in force, with a pipelined request behind them.
 
+A run is one PROCESS, not one connection: before the judged connection the process has, in three runs out of eight, already served
+one or two other connections (each a fresh channel with a stream of its own from the same grammar, or the very bytes of the judged
+stream as a retrying client sends them; each with its own segmentation and response timing; lost afterwards, left open, or served
+only part-way and finished after the judged connection).  Every connection is judged by the same oracle against its own ground
+truth: the verdict on a stream is a function of that stream alone.  Process-wide state (header-name cache, module settings) is
+reset at the start of a run only, so that whatever connections share they share as in a real process.
+
 The documented module-level setting twisted.web.http.maxChunkSizeLineLength is a
 per-run knob (default / raised / lowered), set before the channel is built and
 restored in a finally and in cleanup(sim).
@@ -48,13 +55,20 @@ RULE = ("run = one stream from family a (1-4 well-formed pipelined requests: OWS
         "inside it, just under it, between the default and a raised limit, at its edge or beyond it, then a pipelined GET that must be reached), with the "
         "documented module setting http.maxChunkSizeLineLength drawn per run (default / raised / lowered; lowered only below lines the stream needs), delivered under a tape-chosen segmentation with "
         "each response finished at once or later; one run in twelve keeps delivering after the server's close request (as a TLS transport does); "
+        "in 3 runs of 8 the process has served 1-2 EARLIER CONNECTIONS before the judged one (fresh channel each; stream = the judged stream's very bytes, "
+        "as a retrying client sends them, or a stream of its own drawn from families b/a/c/e/l under the setting in force; own segmentation and response "
+        "timing; afterwards lost, left open, or - 35% - held part-way with requests unanswered and finished after the judged connection), each judged "
+        "by the full oracle against its own ground truth; "
         "non-trivial = at least one request was handed to the application or a 400 was written")
 ASSUMPTIONS = ["no verdict on constructs where the RFCs leave the recipient a choice other than those listed in family e (BWS before a chunk extension, "
                "Transfer-Encoding in HTTP/1.0, HTTP/1.x versions above 1.1, 'identity' as sole transfer coding, request-target bytes >= 0x7F)",
                "requests after a non-persistent request are not generated (a conforming client never sends them)",
                "maxChunkSizeLineLength is documented as the maximum allowable length of the CRLF-terminated chunk-size line: a line that fits including its "
                "CRLF must be accepted and framed normally; a line one or two bytes longer (the readings with / without the CRLF) or beyond the limit may be "
-               "accepted or answered with 400 (then nothing after it is processed) - the statement sets no size limits"]
+               "accepted or answered with 400 (then nothing after it is processed) - the statement sets no size limits",
+               "the statement quantifies over request streams, not over the history of the process: a stream's verdict may not depend on what other "
+               "connections of the same process received before or in between (each run starts as a fresh process: the process-wide header-name cache "
+               "is emptied at the start of a run, never between the connections of a run)"]
 LIMIT_DEFAULT = 1024                 # documented default of twisted.web.http.maxChunkSizeLineLength
 LIMIT_RAISED = [1500, 1100, 2048]
 LIMIT_LOWERED = [700, 256, 64]       # every ordinary chunk-size line of the grammar (size + short extension) is below 32 bytes
@@ -212,28 +226,29 @@ def run(sim):
         _restore_limit()
 
 
-def _run(sim):
-    # process-global mutable state (header-name cache) must not leak between runs in a warm worker
-    try:
-        from twisted.web import http_headers as _hh
-        _hh._nameEncoder._canonicalHeaderCache.clear()
-    except AttributeError:
-        pass
-    family = sim.draw_weighted([("a", 5), ("b", 7), ("c", 2), ("e", 1), ("l", 1)], "family")
-    # 1 run out of 12 keeps delivering after the server's close request (precondition of the known after-close-delivery defect)
-    after_close = sim.draw_choice([False] * 11 + [True], "deliver-after-close")
-    eager = sim.draw_choice([0x4000, 0x4000, 24], "eager")
+class _Plan:
+    """One generated stream and its ground truth."""
+    __slots__ = ("family", "kind", "data", "bounds", "truth", "must400", "either", "specs")
+
+
+def _gen_plan(sim, family, in_force=None):
+    """Stream of the given family -> (plan, limit_mode, limit).  `in_force` = (mode, value) of the module setting when it is already
+    fixed (streams for further connections of the same process); None = this stream decides it: drawn first in family l (the stream is
+    sized by it), after the stream in the other families."""
+    p = _Plan()
     truth = []          # ReqSpec-like keys the application must be handed, in order
     must400 = False     # after the truth requests: a 400, a close request, nothing else
     either = None       # (key if accepted, follower key) for family e / high target bytes
     kind = family
-    limit_mode = None   # the module setting: drawn first in family l (the stream is sized by it), after the stream in the other families
+    limit_mode, limit = in_force if in_force is not None else (None, None)
     if family == "a":
-        specs = H.gen_stream(sim, 4, long_ext="under")
+        # lines just under the DEFAULT limit only where the limit in force is known not to be lower
+        specs = H.gen_stream(sim, 4, long_ext="under" if (in_force is None or limit >= LIMIT_DEFAULT) else False)
         data, bounds = H.stream_bytes(specs)
         truth = [s.key() for s in specs]
     elif family == "l":
-        limit_mode, limit = _draw_limit(sim)
+        if in_force is None:
+            limit_mode, limit = _draw_limit(sim)
         specs = [H.gen_request(sim, last=False, allow_expect=False) for _ in range(sim.draw_int(0, 1, "nprefix"))]
         data, bounds = H.stream_bytes(specs)
         truth = [s.key() for s in specs]
@@ -289,10 +304,6 @@ def _run(sim):
         bounds = bounds + [len(data) - len(H.VICTIM)]
     if limit_mode is None:
         limit_mode, limit = _draw_limit(sim, _longest_size_line(specs))
-    sim.probe("limit_" + limit_mode)
-    sim.config = {"family": family, "kind": kind, "after_close": after_close, "len": len(data), "ntruth": len(truth),
-                  "maxChunkSizeLineLength": limit}
-    sim.event("stream", kind, len(data), data)
 
     # harness self-check: the generator's claim agrees with the RFC reference parser (AssertionError = harness error, never a violation)
     ref, st = http1.parse_requests(data)
@@ -302,138 +313,233 @@ def _run(sim):
         assert st == "ok" and [m.key() for m in ref] == truth + (list(either) if either else []), (st, kind)
     elif must400:
         assert isinstance(st, tuple) and st[0] == "bad" and [m.key() for m in ref] == truth, (kind, st, data)
+    p.family, p.kind, p.data, p.bounds, p.truth, p.must400, p.either, p.specs = family, kind, data, bounds, truth, must400, either, specs
+    return p, limit_mode, limit
 
-    pending = []
 
-    def app(srv, req, idx):
+class _Conn:
+    """One connection of the process: a fresh channel of its own, its stream under a segmentation of its own, the application, and the
+    oracle of the property applied to what THIS connection was handed and answered.  The verdict on a stream is a function of the
+    stream alone: what other connections of the same process received earlier (or receive in between) has no say in it."""
+
+    def __init__(self, sim, plan, eager, after_close, label, context):
+        self.sim, self.plan, self.after_close, self.label, self.context = sim, plan, after_close, label, context
+        self.pending = []
+        sim.event("stream", label, plan.kind, len(plan.data), plan.data)
+        self.srv = H.Server(sim, self._app, timeout=60, knobs={"_optimisticEagerReadSize": eager})
+        self.pieces = net.cut(sim, plan.data, boundaries=plan.bounds)
+        self.queue = list(self.pieces)
+
+    def _app(self, srv, req, idx):
         req.setHeader(b"X-Idx", b"%d" % idx)
         body = b"ok%d" % idx
         req.setHeader(b"Content-Length", b"%d" % len(body))
-        if sim.draw_bool(0.4, "defer"):
-            pending.append((req, body))
+        if self.sim.draw_bool(0.4, "defer"):
+            self.pending.append((req, body))
         else:
             req.write(body)
             req.finish()
 
-    _set_limit(limit)       # before the channel exists; restored by run()'s finally and by cleanup()
-    srv = H.Server(sim, app, timeout=60, knobs={"_optimisticEagerReadSize": eager})
-    pieces = net.cut(sim, data, boundaries=bounds)
-    queue = list(pieces)
-    wit = kind
+    def _answer(self):
+        req, body = self.pending.pop(0)
+        req.write(body)
+        req.finish()
 
-    def drive(until_close):
+    def _drive(self, until_close, budget=None):
+        """Deliver and answer until nothing is left to do; with a budget: stop after that many deliveries, leaving the rest of the stream
+        undelivered and the unanswered requests unanswered (the connection stays as it is while others are served)."""
+        sim, srv, queue, pending = self.sim, self.srv, self.queue, self.pending
+        n = 0
         while True:
-            sim.step(20000)
-            can = bool(queue) and srv.can_deliver() and not (until_close and srv.t.close_at is not None)
+            sim.step(60000)
+            can = (bool(queue) and srv.can_deliver() and not (until_close and srv.t.close_at is not None)
+                   and (budget is None or n < budget))
             if can and pending and sim.draw_bool(0.3, "app-first"):
-                req, body = pending.pop(0)
-                req.write(body)
-                req.finish()
+                self._answer()
             elif can:
                 srv.deliver(queue.pop(0))
-            elif pending:
-                req, body = pending.pop(0)
-                req.write(body)
-                req.finish()
+                n += 1
+            elif pending and budget is None:
+                self._answer()
             else:
                 break
 
-    # phase 1: deliveries stop at the server's close request (what a TCP transport does: loseConnection() stops reading)
-    with sim.guard("server-raised", wit):
-        drive(True)
-    phase1 = (len(srv.delivered), len(srv.t.written))
+    def serve(self, budget=None):
+        # phase 1: deliveries stop at the server's close request (what a TCP transport does: loseConnection() stops reading)
+        with self.sim.guard("server-raised", self.plan.kind):
+            self._drive(True, budget)
 
-    got = [d.key() for d in srv.delivered]
-    out = bytes(srv.t.written)
-    closed = srv.t.close_at is not None
-    sim.event("delivered", len(got), "closed" if closed else "open", len(out))
+    def close(self):
+        with self.sim.guard("server-raised", self.plan.kind):
+            self.srv.lose(clean=True)
 
-    def detail():
-        return "kind=%s stream=%r pieces=%r\n delivered=%r\n truth=%r\n out=%r closed=%s" % (
-            kind, data, pieces if len(pieces) < 10 else [len(p) for p in pieces], srv.delivered, truth, out, closed)
+    def judge(self):
+        sim, srv, plan, queue = self.sim, self.srv, self.plan, self.queue
+        family, kind, data, pieces = plan.family, plan.kind, plan.data, self.pieces
+        truth, must400, either = list(plan.truth), plan.must400, plan.either
+        wit = kind
+        phase1 = (len(srv.delivered), len(srv.t.written))
 
-    # 0. Content-Length together with "Transfer-Encoding: identity": own clause (genuine deviation, see MUTANTS/FINDINGS below)
-    if kind in IDENTITY_DEFECTS:
-        sim.check("cl-and-te-identity-accepted", len(srv.delivered) <= len(truth), "identity", detail)
+        got = [d.key() for d in srv.delivered]
+        out = bytes(srv.t.written)
+        closed = srv.t.close_at is not None
+        sim.event("delivered", self.label, len(got), "closed" if closed else "open", len(out))
 
-    # 1. nothing that is not a request of the stream is ever processed
-    sim.check("smuggled", not any(k[0] in H.MARKERS for k in got), wit, detail)
+        def detail():
+            return "connection=%s %s\n kind=%s stream=%r pieces=%r\n delivered=%r\n truth=%r\n out=%r closed=%s" % (
+                self.label, self.context(), kind, data, pieces if len(pieces) < 10 else [len(p) for p in pieces], srv.delivered, truth, out,
+                closed)
 
-    resp_methods = [k[0] for k in got]
-    if either is not None:
-        acc, fol = either
-        rejected = len(got) == len(truth)
-        if rejected:
-            must400 = True
-            sim.probe("either_rejected")
+        # 0. Content-Length together with "Transfer-Encoding: identity": own clause (genuine deviation, see MUTANTS/FINDINGS below)
+        if kind in IDENTITY_DEFECTS:
+            sim.check("cl-and-te-identity-accepted", len(srv.delivered) <= len(truth), "identity", detail)
+
+        # 1. nothing that is not a request of the stream is ever processed
+        sim.check("smuggled", not any(k[0] in H.MARKERS for k in got), wit, detail)
+
+        resp_methods = [k[0] for k in got]
+        if either is not None:
+            acc, fol = either
+            rejected = len(got) == len(truth)
+            if rejected:
+                must400 = True
+                sim.probe("either_rejected")
+            else:
+                sim.probe("either_repaired")
+                truth = truth + [acc, fol]
+                got = [_norm_key(k) for k in got]
+                truth = [_norm_key(k) for k in truth]
+
+        # 2. exactly the ground-truth requests, with exactly their bodies
+        def first_diff():
+            if len(got) != len(truth):
+                return "more" if len(got) > len(truth) else "fewer"
+            for x, y in zip(got, truth):
+                for name, u, v in zip(("method", "target", "version", "headers", "body"), x, y):
+                    if u != v:
+                        return name
+            return "same"
+
+        if must400:
+            sim.check("processed-after-defect", len(got) <= len(truth), wit, detail)
+        sim.check("delivered-equals-truth", got == truth, wit + ":" + first_diff(), detail)
+
+        # 3. the wire: one response per processed request, then (if demanded) one 400 and a close request
+        rs, rst, _ = http1.parse_responses(out, resp_methods + [b"GET"], eof=True)
+        codes = [r.code for r in rs]
+        if must400:
+            sim.check("no-400", codes[len(truth):len(truth) + 1] == [400], wit, detail)
+            sim.check("400-position", codes[:len(truth)].count(400) == 0 and rst == "ok" and len(codes) == len(truth) + 1 and rs[-1].body == b"",
+                      wit, detail)
+            sim.check("not-closed", closed and srv.t.close_at == len(out), wit, detail)
+            sim.probe("rejected_with_400")
         else:
-            sim.probe("either_repaired")
-            truth = truth + [acc, fol]
-            got = [_norm_key(k) for k in got]
-            truth = [_norm_key(k) for k in truth]
+            sim.check("spurious-400", 400 not in codes, wit, detail)
+            sim.check("responses-match", rst == "ok" and len(codes) == len(truth) and [r.get(b"x-idx") for r in rs] == [[b"%d" % i] for i in range(len(truth))],
+                      wit, detail)
 
-    # 2. exactly the ground-truth requests, with exactly their bodies
-    def first_diff():
-        if len(got) != len(truth):
-            return "more" if len(got) > len(truth) else "fewer"
-        for x, y in zip(got, truth):
-            for name, u, v in zip(("method", "target", "version", "headers", "body"), x, y):
-                if u != v:
-                    return name
-        return "same"
+        # 4. independent parser on well-formed streams
+        if family == "a" or (family == "l" and either is None):
+            h, hst = H.h11_requests(data)
+            if hst == "ok":
+                sim.probe("h11_agreed_streams")
+                # h11 lower-cases the Transfer-Encoding value; do the same on our side
+                mine = [_lower_te(d.key()) for d in srv.delivered]
+                sim.check("h11-agrees", mine == [_lower_te(k) for k in h], wit, lambda: "h11=%r\n%s" % (h, detail()))
+            else:
+                sim.probe("h11_" + hst)
+        # 5. phase 2: a TLS transport (twisted.protocols.tls.TLSMemoryBIOProtocol) keeps calling dataReceived after
+        # loseConnection() until the peer's close_notify arrives.  "Nothing after it is processed" must hold there too.
+        if self.after_close and closed and queue and must400:
+            sim.fault("delivery_after_close_request", len(queue))
+            try:
+                self._drive(False)
+                raised = None
+            except Exception as e:
+                if isinstance(e, (Violation, StepLimit)):
+                    raise
+                raised = type(e).__name__
+            new = srv.delivered[phase1[0]:]
 
-    if must400:
-        sim.check("processed-after-defect", len(got) <= len(truth), wit, detail)
-    sim.check("delivered-equals-truth", got == truth, wit + ":" + first_diff(), detail)
+            def detail2():
+                return "after the close request: raised=%s processed=%r extra output=%r\n%s" % (raised, new, bytes(srv.t.written[phase1[1]:]), detail())
 
-    # 3. the wire: one response per processed request, then (if demanded) one 400 and a close request
-    rs, rst, _ = http1.parse_responses(out, resp_methods + [b"GET"], eof=True)
-    codes = [r.code for r in rs]
-    if must400:
-        sim.check("no-400", codes[len(truth):len(truth) + 1] == [400], wit, detail)
-        sim.check("400-position", codes[:len(truth)].count(400) == 0 and rst == "ok" and len(codes) == len(truth) + 1 and rs[-1].body == b"",
-                  wit, detail)
-        sim.check("not-closed", closed and srv.t.close_at == len(out), wit, detail)
-        sim.probe("rejected_with_400")
-    else:
-        sim.check("spurious-400", 400 not in codes, wit, detail)
-        sim.check("responses-match", rst == "ok" and len(codes) == len(truth) and [r.get(b"x-idx") for r in rs] == [[b"%d" % i] for i in range(len(truth))],
-                  wit, detail)
+            sim.check("after-close-delivery", not any(d.method in H.MARKERS for d in new), "victim-processed", detail2)
+            sim.check("after-close-delivery", not new, "request-processed", detail2)
+            sim.check("after-close-delivery", raised is None, "raised-%s" % raised, detail2)
+            sim.check("after-close-delivery", len(srv.t.written) == phase1[1], "extra-output", detail2)
 
-    # 4. independent parser on well-formed streams
-    if family == "a" or (family == "l" and either is None):
-        h, hst = H.h11_requests(data)
-        if hst == "ok":
-            sim.probe("h11_agreed_streams")
-            # h11 lower-cases the Transfer-Encoding value; do the same on our side
-            mine = [_lower_te(d.key()) for d in srv.delivered]
-            sim.check("h11-agrees", mine == [_lower_te(k) for k in h], wit, lambda: "h11=%r\n%s" % (h, detail()))
+        if any(s.expect100 for s in plan.specs):
+            sim.probe("expect_100")
+        return got, out, closed
+
+
+# how many connections the process has served (or is still serving) before the judged one; value 0 = a fresh process
+EARLIER = [0, 0, 0, 0, 0, 1, 1, 2]
+EARLIER_STREAMS = ["same", "fresh"]     # the very bytes of the judged stream (a client that retries) / a stream of its own from the grammar
+EARLIER_FAMILIES = [("b", 7), ("a", 4), ("c", 2), ("e", 1), ("l", 1)]
+
+
+def _run(sim):
+    # every run starts as a fresh process: process-global mutable state (header-name cache) must not leak between RUNS in a warm
+    # worker.  WITHIN a run the process serves one to three connections, and whatever they share they share as in a real process.
+    try:
+        from twisted.web import http_headers as _hh
+        _hh._nameEncoder._canonicalHeaderCache.clear()
+    except AttributeError:
+        pass
+    family = sim.draw_weighted([("a", 5), ("b", 7), ("c", 2), ("e", 1), ("l", 1)], "family")
+    # 1 run out of 12 keeps delivering after the server's close request (precondition of the known after-close-delivery defect)
+    after_close = sim.draw_choice([False] * 11 + [True], "deliver-after-close")
+    eager = sim.draw_choice([0x4000, 0x4000, 24], "eager")
+    plan, limit_mode, limit = _gen_plan(sim, family)
+    sim.probe("limit_" + limit_mode)
+
+    # earlier connections of the same process (drawn after the judged stream: value 0 = none)
+    earlier = []
+    for _ in range(sim.draw_choice(EARLIER, "earlier-connections")):
+        mode = sim.draw_choice(EARLIER_STREAMS, "earlier-stream")
+        if mode == "same":
+            earlier.append([mode, plan, "served"])
         else:
-            sim.probe("h11_" + hst)
-    # 5. phase 2: a TLS transport (twisted.protocols.tls.TLSMemoryBIOProtocol) keeps calling dataReceived after
-    # loseConnection() until the peer's close_notify arrives.  "Nothing after it is processed" must hold there too.
-    if after_close and closed and queue and must400:
-        sim.fault("delivery_after_close_request", len(queue))
-        try:
-            drive(False)
-            raised = None
-        except Exception as e:
-            if isinstance(e, (Violation, StepLimit)):
-                raise
-            raised = type(e).__name__
-        new = srv.delivered[phase1[0]:]
+            fam = sim.draw_weighted(EARLIER_FAMILIES, "earlier-family")
+            earlier.append([mode, _gen_plan(sim, fam, in_force=(limit_mode, limit))[0], "served"])
+    sim.config = {"family": family, "kind": plan.kind, "after_close": after_close, "len": len(plan.data), "ntruth": len(plan.truth),
+                  "maxChunkSizeLineLength": limit, "earlier": ["%s:%s" % (e[0], e[1].kind) for e in earlier]}
 
-        def detail2():
-            return "after the close request: raised=%s processed=%r extra output=%r\n%s" % (raised, new, bytes(srv.t.written[phase1[1]:]), detail())
+    def context():
+        return "earlier connections of the process: %r" % (["%s:%s:%s" % (e[0], e[1].kind, e[2]) for e in earlier],)
 
-        sim.check("after-close-delivery", not any(d.method in H.MARKERS for d in new), "victim-processed", detail2)
-        sim.check("after-close-delivery", not new, "request-processed", detail2)
-        sim.check("after-close-delivery", raised is None, "raised-%s" % raised, detail2)
-        sim.check("after-close-delivery", len(srv.t.written) == phase1[1], "extra-output", detail2)
+    _set_limit(limit)       # before any channel exists; restored by run()'s finally and by cleanup()
+    held = []
+    for i, e in enumerate(earlier):
+        mode, p, _ = e
+        sim.probe("earlier_connection_" + mode)
+        c = _Conn(sim, p, eager, after_close, "earlier%d" % i, context)
+        if len(c.queue) > 1 and sim.draw_bool(0.35, "hold"):
+            # served part-way only: the rest of its stream arrives (and its open requests are answered) after the judged connection
+            e[2] = "held"
+            sim.fault("earlier_connection_held_partway")
+            c.serve(budget=sim.draw_int(1, len(c.queue) - 1, "hold-after"))
+            held.append(c)
+            continue
+        c.serve()
+        c.judge()
+        if sim.draw_bool(0.5, "earlier-lost"):
+            e[2] = "lost"
+            sim.probe("earlier_connection_lost")
+            c.close()
+        else:
+            sim.probe("earlier_connection_left_open")
 
-    if any(s.expect100 for s in specs):
-        sim.probe("expect_100")
-    sim.state((kind, len(got), closed, after_close))
+    main = _Conn(sim, plan, eager, after_close, "judged", context)
+    main.serve()
+    got, out, closed = main.judge()
+    for c in held:
+        c.serve()
+        c.judge()
+
+    sim.state((plan.kind, len(got), closed, after_close))
     sim.nontrivial = bool(got or out)
 
 
@@ -451,6 +557,15 @@ MUTANTS = [
     "CAUGHT http.py _dataReceived_CHUNK_LENGTH: `eolIndex >= maxChunkSizeLineLength` -> `eolIndex >= 1024` (limit read from a constant, raised setting ignored) -> delivered-equals-truth:long-ext:raised:*:fewer, spurious-400",
     "CAUGHT http.py _dataReceived_CHUNK_LENGTH: `self._start = len(self._buffer) - 1` -> `self._start = len(self._buffer)` (a CRLF split across two deliveries is missed; short lines suffice) -> delivered-equals-truth:*:fewer, no-400:chunk-*",
     "CAUGHT http.py _dataReceived_CHUNK_LENGTH: `len(self._buffer) > maxChunkSizeLineLength` -> `len(self._buffer) > 1024` (partial-line bound ignores a raised setting) -> delivered-equals-truth:long-ext:raised:between:fewer / :under:fewer",
+    "CAUGHT (cold-process emulation, 3000 runs: 346 violating runs, every one of them with an earlier connection) http.py HTTPChannel: `_dataBuffer = []` as a class "
+    "attribute instead of per instance in __init__ (pipelined bytes buffered by one connection surface on the next) -> delivered-equals-truth:*:more, "
+    "processed-after-defect:*, spurious-400:*; NOTE under ./check the class-level list also survives from run to run in a warm worker, so most recorded runs do not "
+    "replay in a fresh interpreter and the check exits 2 (harness error) rather than 1",
+    "CAUGHT http.py _respondToBadRequestAndDisconnect: `self.dataReceived = self.lineReceived = ... = lambda` -> `HTTPChannel.dataReceived = ...` (one 400 makes every "
+    "later channel of the process deaf) -> delivered-equals-truth:a:fewer on a judged connection behind an earlier connection that was answered 400 (replayed); same NOTE",
+    "CAUGHT http_headers.py _NameEncoder.encode: the _istoken() check moved behind the store into the process-wide name cache (second sighting of an invalid name is "
+    "served from the cache unvalidated) -> smuggled:hn-* / processed-after-defect:hn-* / server-raised:hn-last-invalid:InvalidHeaderName on a connection that repeats "
+    "the stream of an earlier one; not reachable by any number of single-connection processes",
     "SURVIVED (equivalent) http.py _parseRequestLine: `c <= 32` -> `c < 32`: a SP in the target already makes line.split(b' ') yield 4 parts -> ValueError -> 400",
     'FIX-CHECK http.py _respondToBadRequestAndDisconnect + `self.dataReceived = self.lineReceived = self.rawDataReceived = lambda *args: None`: all after-close-delivery:* signatures disappear (3000 runs)',
     "FIX-CHECK http.py _maybeChooseTransferDecoder: remove the `elif data.lower() == b'identity': return True` branch: cl-and-te-identity-accepted disappears (3000 runs); NOTE upstream pins the accepting behaviour in test_http.ParsingTests.test_transferEncodingIdentity",
